@@ -38,7 +38,7 @@ FileNd(p, cid, size) == [p |-> p, k |-> "file", h |-> FALSE, cid |-> cid, size |
                          dev |-> 1, ino |-> 0, loop |-> FALSE, lp |-> p, comp |-> "plain"]
 DirNd(p, ino) == [p |-> p, k |-> "dir", h |-> FALSE, cid |-> "", size |-> 0, mt |-> 0, dev |-> 1, ino |-> ino,
                   loop |-> FALSE, lp |-> p, comp |-> "plain"]
-En(tag, p, size, ck) == [tag |-> tag, p |-> p, size |-> size, ck |-> ck, odd |-> FALSE, ts |-> ""]
+En(tag, p, size, ck) == [tag |-> tag, p |-> p, size |-> size, ck |-> ck, odd |-> FALSE, ts |-> "", hx |-> ck]
 Mf(p, ents, ok, reg) == [p |-> p, lp |-> p, ok |-> ok, comp |-> "plain", signed |-> FALSE, usize |-> 10 * Len(ents),
                          entries |-> ents, reg |-> reg]
 Cat(ss) == FoldLeft(LAMBDA a, b : a \o b, <<>>, ss)
@@ -99,8 +99,8 @@ Scenarios == { Scenario(a, xl, xs, dms, g) :
 (* ---------------------------------------------------------------------- *)
 (* helpers on the loader's memory                                            *)
 Alive(mp) == SelectSeq(mem[mp], LAMBDA e : ~e.dead)
-Strip(e) == [tag |-> e.tag, p |-> e.p, size |-> e.size, ck |-> e.ck, odd |-> e.odd, ts |-> e.ts]
-WithDead(e) == [tag |-> e.tag, p |-> e.p, size |-> e.size, ck |-> e.ck, odd |-> e.odd, ts |-> e.ts, dead |-> FALSE]
+Strip(e) == [tag |-> e.tag, p |-> e.p, size |-> e.size, ck |-> e.ck, odd |-> e.odd, ts |-> e.ts, hx |-> e.ck]
+WithDead(e) == [tag |-> e.tag, p |-> e.p, size |-> e.size, ck |-> e.ck, odd |-> e.odd, ts |-> e.ts, hx |-> e.ck, dead |-> FALSE]
 FullM(mp, e) == Dir(mp) \o e.p
 DirLen(mp) == Len(mp) - 1
 
@@ -115,7 +115,8 @@ Before(a, b) ==
 SortedMfs(S) == SortSeq(SetToSeq(S), Before)
 
 TrueEntry(e, f) ==     \* update_entry_for_path: size and digests of the file now on disk, requested hashes
-    LET n == NodeAt(scn, f) IN [e EXCEPT !.size = n.size, !.ck = [k \in DOMAIN HSeq |-> <<HSeq[k], n.cid>>]]
+    LET n == NodeAt(scn, f) IN [e EXCEPT !.size = n.size, !.ck = [k \in DOMAIN HSeq |-> <<HSeq[k], n.cid>>],
+                                !.hx = [k \in DOMAIN HSeq |-> <<HSeq[k], n.cid>>]]
 
 Init ==
     /\ scn0 \in Scenarios /\ scn = scn0
@@ -185,7 +186,7 @@ DedupFold(lst, m, out, upd) ==   \* -> [m, out, upd, bad]
          ELSE LET kx == out[f]  kept == m[kx[1]][kx[2]] IN
               IF ~(kept.tag = e.tag \/ (kept.tag \in CompatTags /\ e.tag \in CompatTags))
               THEN [m |-> m, out |-> out, upd |-> upd, bad |-> TRUE]
-              ELSE LET kept2 == [kept EXCEPT !.ck = MergeCk(kept.ck, e.ck)]
+              ELSE LET kept2 == [kept EXCEPT !.ck = MergeCk(kept.ck, e.ck), !.hx = MergeCk(kept.ck, e.ck)]
                        m1 == [m EXCEPT ![kx[1]][kx[2]] = kept2]
                        \* list.remove(e): the first entry of THAT Manifest comparing equal to e
                        firsteq == CHOOSE j \in DOMAIN m1[x[1]] :
@@ -248,7 +249,7 @@ Place(new, m, upd, st) ==     \* -> [m, upd, bad]
          IN IF lvl = 0 THEN [m |-> m, upd |-> upd, bad |-> TRUE]                 \* IndexError (F8)
             ELSE LET mp == st[lvl]
                      rel == SubSeq(f, Len(Dir(mp)) + 1, Len(f))
-                     e0 == [tag |-> tag, p |-> rel, size |-> 0, ck |-> <<>>, odd |-> FALSE, ts |-> "", dead |-> FALSE]
+                     e0 == [tag |-> tag, p |-> rel, size |-> 0, ck |-> <<>>, odd |-> FALSE, ts |-> "", hx |-> <<>>, dead |-> FALSE]
                      e1 == TrueEntry(e0, f)
                  IN Place(Tail(new), [m EXCEPT ![mp] = Append(m[mp], e1)], upd \cup {mp} \cup {st[topi]}, st)
 
